@@ -155,6 +155,16 @@ func Near(a, b, abs, rel float64) bool {
 
 func AssertNear(a, b, abs, rel float64, label string) { Assert(Near(a, b, abs, rel), label) }
 
+// AssertAgree: two runs agree: like AssertNear, but natively two NaNs (or two equal infinities)
+// at the same place also agree - for comparisons of one computation with itself under degenerate
+// parameters (0/0), where "both are not-a-number" is agreement, not a difference.
+func AssertAgree(a, b, abs, rel float64, label string) {
+	if (math.IsNaN(a) && math.IsNaN(b)) || a == b {
+		return
+	}
+	Assert(Near(a, b, abs, rel), label)
+}
+
 // Hunt: like Assert, but under the engine only a counterexample counts (bug hunting).
 func Hunt(c bool, label string) { Assert(c, label) }
 
